@@ -175,7 +175,7 @@ func c12Unblock(r *verdict.Run, race bool) {
 	}
 	var all []scn
 	for _, f := range blkForms {
-		for _, where := range []string{"not-blocked", "before-register", "after-register", "before-capture", "waiting", "with-push", "unknown-id", "stale-then-block"} {
+		for _, where := range []string{"not-blocked", "before-begin", "before-register", "after-register", "before-capture", "waiting", "with-push", "unknown-id", "stale-then-block"} {
 			for _, mode := range []string{"", "TIMEOUT", "ERROR"} {
 				if r.Tier != "thorough" && mode == "TIMEOUT" {
 					continue
@@ -267,7 +267,7 @@ func c12Unblock(r *verdict.Run, race bool) {
 			}
 			s.do("RPUSH", "q", "el-1")
 			s.expectServed(w, "el-1", "unblock/target-not-served-afterwards")
-		case "before-register", "after-register", "before-capture":
+		case "before-begin", "before-register", "after-register", "before-capture":
 			// the command has been issued but the client has not captured itself yet
 			tok, parked := s.parkAt(w, "blk:"+sc.where, cmd)
 			if !parked {
@@ -372,7 +372,7 @@ func c12Disconnect(r *verdict.Run) {
 	var all []scn
 	for _, f := range blkForms {
 		for _, how := range []string{"close", "rst", "half-close", "kill"} {
-			for _, where := range []string{"waiting", "parked-after-register", "parked-before-capture"} {
+			for _, where := range []string{"waiting", "parked-before-begin", "parked-before-register", "parked-after-register", "parked-before-capture"} {
 				all = append(all, scn{f, how, where})
 			}
 		}
